@@ -78,4 +78,19 @@ class planned3:
         return planned.main(self, seqs)
 
 
+@define_app
+class planned_any:
+    """a step whose input hint accepts anything (SerialisableType), as many real
+    apps do; a not-completed value must still pass it by untouched"""
+
+    def __init__(self, tag: str, outcomes: dict):
+        self.tag = tag
+        self.outcomes = outcomes
+
+    T = Union[SeqsCollectionType, SerialisableType]
+
+    def main(self, seqs: SerialisableType) -> T:
+        return planned.main(self, seqs)
+
+
 STEP_CLASSES = (planned, planned2, planned3)
